@@ -112,6 +112,10 @@ def check(case):
             max_distinct = max(max_distinct, len(set(t.tolist())))
             # a caller that edits a returned curve in place (percent axis, re-sorting) must not
             # affect the next call with the same arguments
+            if a_thr is not None and np.shares_memory(np.asarray(c.thresholds), a_thr):
+                # the curve holds the caller's own buffer: whoever writes to one changes the other
+                raise Violation("roc:result-aliases-input",
+                                f"{ctx}: the returned thresholds share memory with the supplied threshold array")
             if x_axis in ("fnr", "tar") and len(t) > 0:
                 c.fnr *= 100.0
                 c.fpr[...] = -1.0
